@@ -300,7 +300,7 @@ PROPS["C16"] = dict(
 PROPS["C15"] = dict(
     claim=dict(
         text="Machine-checked proof (Coq 8.16): for every grammar-level pattern without optional parts and every assignment of values that satisfy its variables' regexes, the substituted path matches the pattern with a decomposition having exactly those values (C15_matches); requesting it dispatches to a route - this one, or one C01's rule ranks higher that then also matches (C15_dispatch, from C01's completeness); the reported parameters are a valid decomposition (C15_params) and are exactly the substituted values when every variable is slash-free and delimited by the end or a literal beginning with '/' (C15_values_back, C15_decomposition_unique); GetRoute returns the most recent registration under a name and other names are untouched (C15_get_route, C15_other_names_kept). K3 (trailing white space trimmed by lookup normalisation) and K4 (a value containing another placeholder's text is replaced again) are refuted witnesses and known findings. Tie to the code: named routes x admissible and special values (spaces, non-ASCII, %, %XX, ?, #, &, ;, .., braces) x the three argument styles; the URL built by BuildURL/ToURL is compared with the extracted string-level model of Build, its Path is fed to Router.Match and its String() through http.NewRequest into ServeHTTP; the judge checks substitution, query arguments and route/values on the grammar-level AST; naming-operation sequences are checked against GetRoute.",
-        note="Side conditions (stated in the theorems): values contain no brace and the substituted path is already normalised. net/url escaping/parsing is not modelled (validated by the tie: ServeHTTP on the parsed URL vs Match on u.Path). The string-level Build (placeholder replacement in Go-map order) is tied to the grammar-level substitution by the correspondence, not by proof. Trusted: Coq kernel, extraction, driver, harness.",
+        note="Side condition (stated in the theorems): the substituted path is already normalised (K3). net/url escaping/parsing is not modelled (validated by the tie: ServeHTTP on the parsed URL vs Match on u.Path). The string-level Build (one-pass multi-replacement of the placeholder texts, after repair F19) is tied to the grammar-level substitution by the correspondence, not by proof. Trusted: Coq kernel, extraction, driver, harness.",
         technique="Coq proof: substitution of admissible values lies in the pattern's language; uniqueness of decomposition for segment-shaped patterns; differential check with round trip through the router"),
     n=dict(quick=5000, thorough=40000),
     consts=["global-vars", "any-match"],
@@ -311,7 +311,7 @@ PROPS["C15"] = dict(
          "its String() through http.NewRequest + ServeHTTP; (b) sequences of 1..4 naming operations (AddNamed, NewNamedRoute+AddRoute, NamedTo on an attached / "
          "unattached route) followed by GetRoute. Non-trivial = build case for a dynamic route.",
     trusted_base=_RT_TRUSTED + ["modelled, not verified: net/url (escaping of u.String() and parsing back: the tie compares ServeHTTP on the parsed URL with Match on u.Path), goutil.String"],
-    assumptions=["values satisfy their variable's regex and contain no brace; the substituted path is already normalised (otherwise K3)"],
+    assumptions=["values satisfy their variable's regex; the substituted path is already normalised (otherwise K3)"],
 )
 
 PROPS["C17"] = dict(
